@@ -20,6 +20,7 @@ STD_ENUMS = {
 class SrcInfo:
     def __init__(self, src_root):
         self.structs = {}   # name -> [field names]  (tuple structs: ["0","1",..])
+        self.struct_types = {}  # name -> {field name: declared type text}
         self.enums = {}     # name -> [(variant, [field names])]
         for d, _, fs in os.walk(src_root):
             for f in fs:
@@ -34,15 +35,17 @@ class SrcInfo:
         t = re.sub(r"/\*.*?\*/", "", t, flags=re.S)
         return t
 
-    def _fields(self, body):
+    def _fields(self, body, types=None):
         names = []
         for part in split_top(body):
             part = re.sub(r"#\[[^\]]*\]", "", part, flags=re.S).strip()
             if not part:
                 continue
-            m = re.match(r"(?:pub(?:\([^)]*\))?\s+)?(\w+)\s*:", part)
+            m = re.match(r"(?:pub(?:\([^)]*\))?\s+)?(\w+)\s*:\s*(.*)$", part, flags=re.S)
             if m:
                 names.append(m.group(1))
+                if types is not None:
+                    types[m.group(1)] = " ".join(m.group(2).split())
         return names
 
     def _scan(self, text):
@@ -56,7 +59,9 @@ class SrcInfo:
             close = match_close(t, i)
             body = t[i + 1:close]
             if opener == "{":
-                self.structs[name] = self._fields(body)
+                ty = {}
+                self.structs[name] = self._fields(body, ty)
+                self.struct_types[name] = ty
             else:
                 self.structs[name] = [str(k) for k, _ in enumerate([x for x in split_top(body) if x.strip()])]
         for m in re.finditer(r"\benum\s+(\w+)\s*(<[^{]*>)?\s*\{", t):
